@@ -268,8 +268,12 @@ class Program:
         self.traits = {}
         self.crates = crates
         self.folded = {}
-        from .normalize import fold_new_helpers
+        from .normalize import fold_new_helpers, restore_param_names
+        self.renamed_params = {}
         for cname, j in crates.items():
+            nr = restore_param_names(cname, j)
+            if nr:
+                self.renamed_params[cname] = nr
             # new private helpers (names the rules have never seen) are read as part of their callers
             got = fold_new_helpers(cname, j)
             if got:
